@@ -23,6 +23,11 @@ fn first_word(s: &str) -> String {
     s.split_whitespace().find(|w| !w.chars().all(|c| c == '#')).unwrap_or("").to_string()
 }
 
+/// number of Section nodes of the squashed tree (each is written with a heading marker)
+fn tree_sections(t: &Tree) -> u64 {
+    (if matches!(t.node, Node::Section(_)) { 1 } else { 0 }) + t.children.iter().map(tree_sections).sum::<u64>()
+}
+
 fn tree_bag(t: &Tree, bag: &mut BTreeMap<(String, String), u64>) {
     match &t.node {
         Node::Section(inl) | Node::Leaf(inl) => {
@@ -74,7 +79,32 @@ fn bag_json(bag: &BTreeMap<(String, String), u64>) -> Value {
     json!(bag.iter().map(|((k, v), n)| json!({"kind":k,"v":serde_json::from_str::<Value>(v).unwrap(),"n":n})).collect::<Vec<_>>())
 }
 
-/// `vh squash-replay <cases.ndjson> <events.ndjson> [--shard i/n]`
+/// what the real `iwe squash -k <root> -d <depth>` prints for the library written to disk; `fillers` extra
+/// notes nobody refers to are added (the output must not depend on how many notes the library has)
+fn cli_squash(bin: &str, state: &std::collections::HashMap<String, String>, root: &str, depth: u8, fillers: usize, tag: usize) -> Option<String> {
+    let dir = std::env::temp_dir().join(format!("vh-squash-{}-{}", std::process::id(), tag));
+    let _ = std::fs::remove_dir_all(&dir);
+    std::fs::create_dir_all(dir.join(".iwe")).unwrap();
+    for (k, v) in state.iter() {
+        let p = dir.join(format!("{}.md", k));
+        std::fs::create_dir_all(p.parent().unwrap()).unwrap();
+        std::fs::write(p, v).unwrap();
+    }
+    for i in 0..fillers {
+        std::fs::write(dir.join(format!("filler{:03}.md", i)), format!("# Filler {}\n", i)).unwrap();
+    }
+    let out = std::process::Command::new(bin)
+        .args(["squash", "-k", root, "-d", &depth.to_string()])
+        .current_dir(&dir)
+        .output()
+        .ok()
+        .filter(|o| o.status.success())
+        .map(|o| String::from_utf8_lossy(&o.stdout).to_string());
+    let _ = std::fs::remove_dir_all(&dir);
+    out
+}
+
+/// `vh squash-replay <cases.ndjson> <events.ndjson> [--shard i/n] [--iwe <binary>]`
 pub fn cmd_replay(args: &[String]) -> i32 {
     let mut shard = (0usize, 1usize);
     if args.len() > 3 && args[2] == "--shard" {
@@ -87,6 +117,7 @@ pub fn cmd_replay(args: &[String]) -> i32 {
     // sees which case it died on, records it and resumes after it (`--from <case>`)
     let from: usize = args.iter().position(|a| a == "--from").and_then(|i| args.get(i + 1)).and_then(|v| v.parse().ok()).unwrap_or(0);
     let mut out = std::io::BufWriter::new(std::fs::OpenOptions::new().create(true).append(true).open(&args[1]).expect("events"));
+    let iwe: Option<String> = args.iter().position(|a| a == "--iwe").and_then(|i| args.get(i + 1)).cloned();
     let mut n = 0;
     for (ln, line) in std::io::BufReader::new(f).lines().enumerate() {
         let line = line.unwrap();
@@ -105,6 +136,7 @@ pub fn cmd_replay(args: &[String]) -> i32 {
         }
         let state = lib.state();
         let rootk = key_str(&root);
+        let state_cli = state.clone();
         // run in a thread with a budget: non-termination is an observation, not a hung harness
         let (tx, rx) = mpsc::channel();
         let rk = rootk.clone();
@@ -117,20 +149,34 @@ pub fn cmd_replay(args: &[String]) -> i32 {
                     let tree = (&g).squash(&key, depth);
                     let mut tb = BTreeMap::new();
                     tree_bag(&tree, &mut tb);
+                    let sections = tree_sections(&tree);
                     let mut patch = Graph::new();
                     patch.build_key_from_iter(&key, TreeIter::new(&tree));
                     let md = patch.export_key(&key).unwrap_or_default();
-                    (tb, md)
+                    (tb, md, sections)
                 }));
                 let _ = tx.send(r);
             })
             .unwrap();
         let ev = match rx.recv_timeout(Duration::from_secs(60)) {
-            Ok(Ok((tb, md))) => {
+            Ok(Ok((tb, md, sections))) => {
                 let mut mb = BTreeMap::new();
                 let dir: Vec<String> = root[..root.len() - 1].to_vec();
                 md_bag(&project(&md).blocks, &dir, &mut mb);
-                json!({"ev":"Squash","case":ln,"docs":c["docs"],"root":root,"depth":depth,"res":"ok","tree_bag":bag_json(&tb),"md_bag":bag_json(&mb)})
+                // every 16th case, and every case deeper than 6, also through the command line tool; every 64th
+                // in a library padded to 256 notes and the deep ones padded to 260
+                let cli = match &iwe {
+                    Some(bin) if ln % 16 == 0 || depth > 6 => {
+                        let fillers = if depth > 6 { 260usize.saturating_sub(state_cli.len()) } else if ln % 64 == 0 { 256usize.saturating_sub(state_cli.len()) } else { 0 };
+                        match cli_squash(bin, &state_cli, &rootk, depth, fillers, shard.0) {
+                            Some(o) => if o == md { "same" } else { "differs" },
+                            None => "failed",
+                        }
+                    }
+                    _ => "skipped",
+                };
+                json!({"ev":"Squash","case":ln,"docs":c["docs"],"root":root,"depth":depth,"res":"ok","tree_bag":bag_json(&tb),"md_bag":bag_json(&mb),
+                       "tree_sections":sections,"md_heading_lines":md.lines().filter(|l| l.starts_with('#')).count(),"cli":cli})
             }
             Ok(Err(p)) => json!({"ev":"Squash","case":ln,"docs":c["docs"],"root":root,"depth":depth,"res":format!("panic:{}", p.chars().take(80).collect::<String>().replace('"', "'")),"tree_bag":[],"md_bag":[]}),
             Err(_) => json!({"ev":"Squash","case":ln,"docs":c["docs"],"root":root,"depth":depth,"res":"hang","tree_bag":[],"md_bag":[]}),
